@@ -4,3 +4,4 @@ import NmfuModel.Explore
 import NmfuModel.Expr
 import NmfuModel.Mach
 import NmfuModel.Parse
+import NmfuModel.Rt
